@@ -53,12 +53,14 @@ class Enc:
         self.e = '<' if le else '>'
         self.buf = bytearray()
         self.start = start  # virtual offset of buf[0]
+        self.sites = []     # (offset in buf, kind) of places worth corrupting
 
     def pos(self):
         return self.start + len(self.buf)
 
     def pad(self, a):
         while self.pos() % a:
+            self.sites.append((len(self.buf), 'pad'))
             self.buf.append(0)
 
     def put(self, sig, val):
@@ -68,13 +70,24 @@ class Enc:
             self.buf += struct.pack(self.e + FIXED[c], val)
         elif c == 'b':
             self.pad(4)
+            self.sites.append((len(self.buf), 'bool'))
             self.buf += struct.pack(self.e + 'I', int(val))
         elif c in 'so':
             v = _b(val)
             self.pad(4)
+            self.sites.append((len(self.buf), 'len32'))
+            if v:
+                self.sites.append((len(self.buf) + 4, 'text'))
+                self.sites.append((len(self.buf) + 4 + len(v) // 2, 'text'))
+                self.sites.append((len(self.buf) + 4 + len(v) - 1, 'text'))
+            self.sites.append((len(self.buf) + 4 + len(v), 'nul'))
             self.buf += struct.pack(self.e + 'I', len(v)) + v + b'\0'
         elif c == 'g':
             v = _b(val)
+            self.sites.append((len(self.buf), 'len8'))
+            for k in range(len(v)):
+                self.sites.append((len(self.buf) + 1 + k, 'sigchar'))
+            self.sites.append((len(self.buf) + 1 + len(v), 'nul'))
             self.buf += bytes([len(v)]) + v + b'\0'
         elif c == 'v':
             vs, vv = val
@@ -84,6 +97,7 @@ class Enc:
             es = sig[1:]
             self.pad(4)
             lp = len(self.buf)
+            self.sites.append((lp, 'len32'))
             self.buf += b'\0\0\0\0'
             self.pad(ALIGN[es[0]])
             s0 = len(self.buf)
@@ -98,19 +112,22 @@ class Enc:
             raise ValueError('bad type ' + c)
 
 
-def marshal_body(sig, vals, le=True):
+def marshal_body(sig, vals, le=True, sites=None):
     e = Enc(le)
     for s, v in zip(split_sig(sig), vals):
         e.put(s, v)
+    if sites is not None:
+        sites.extend(e.sites)
     return bytes(e.buf)
 
 
 def build_message(mtype, serial, fields=None, sig='', body=(), flags=0, le=True, raw_fields=None,
-                  nfds=None, body_bytes=None, version=1):
+                  nfds=None, body_bytes=None, version=1, sites=None):
     """fields: dict code -> value (typed per FIELD_SIG); raw_fields: list of (code, sig, value) appended
     after (forged / unknown fields). Field order: as given in `fields` (dict order), then raw_fields."""
+    bsites = []
     if body_bytes is None:
-        body_bytes = marshal_body(sig, body, le)
+        body_bytes = marshal_body(sig, body, le, bsites)
     fl = []
     for code, v in (fields or {}).items():
         fl.append((code, FIELD_SIG[code], v))
@@ -125,6 +142,10 @@ def build_message(mtype, serial, fields=None, sig='', body=(), flags=0, le=True,
     e.buf += struct.pack(e.e + 'II', len(body_bytes), serial)
     e.put('a(yv)', [(c, (s, v)) for c, s, v in fl])
     e.pad(8)
+    if sites is not None:
+        sites.extend([(0, 'endian'), (1, 'type'), (2, 'flags'), (3, 'version'), (4, 'len32'), (8, 'serial')])
+        sites.extend(e.sites)
+        sites.extend((off + len(e.buf), k) for off, k in bsites)
     return bytes(e.buf) + body_bytes
 
 
